@@ -6,6 +6,7 @@ import QtyModel.SIPrefix
 import QtyModel.Spec.SI
 import QtyModel.UnitSpec
 import QtyModel.Rate
+import QtyModel.Fmt
 import QtyModel.Spec.Temperature
 import QtyModel.Generated.TempTable
 /-
@@ -151,8 +152,26 @@ def tempRows {A} (R : Arith A) (T : RTable A) : Option (List (ConvRow A)) :=
     let off ← R.ofLit off
     pure { fromU := fi, toU := ti, factor := fa, offset := off })
 
+def parseSpec (flags w p : String) : Option Fmt.Spec :=
+  match flags.toList with
+  | [f, a, pl, z] =>
+    let fill : Option (Option Nat) := match f with
+      | 'n' => some none | 's' => some (some 42) | 'z' => some (some 48) | 'u' => some (some 95)
+      | 'e' => some (some 233) | 'w' => some (some 8594) | _ => none
+    let align : Option (Option Fmt.Align) := match a with
+      | 'n' => some none | 'l' => some (some .left) | 'c' => some (some .center) | 'r' => some (some .right) | _ => none
+    match fill, align with
+    | some fill, some align =>
+      some { fill, align, plus := pl == '1', zero := z == '1', width := w.toNat?, prec := p.toNat? }
+    | _, _ => none
+  | _ => none
+
+structure AmtText (A : Type) where
+  /-- text of `|a|` under an optional precision, where the model can compute it (decimal) -/
+  absText : Option (Option Nat → A → Text)
+
 section run
-variable {A : Type} (R : Arith A) (C : Codec A) (M : ErrModel) (W : World A)
+variable {A : Type} (R : Arith A) (C : Codec A) (M : ErrModel) (W : World A) (AT : AmtText A)
 
 def qStr (q : Q A Nat) : String := s!"{q.unit} {C.render q.amount}"
 
@@ -451,6 +470,18 @@ def step (line impl : String) : String × Verdict :=
             | _, _, _, _ => .skip "non-finite or unparsed"
           (out, v)
         | _, _ => bad
+      | "fmt", [] =>
+        match impl.splitOn " " with
+        | [o, taT, pmT] =>
+          match textOfHex o, textOfHex taT, textOfHex pmT with
+          | some outT, some taT, some pmT =>
+            let tsym : Text := (TT.units[tu]?.map (·.symbol)).getD []
+            let psym : Text := (TP.units[pu]?.map (·.symbol)).getD []
+            let exp := Fmt.rateFmt taT tsym pmT psym (R.beq pm R.one)
+            ("h" ++ hexOfText exp ++ " " ++ "h" ++ hexOfText taT ++ " h" ++ hexOfText pmT,
+              check (outT == exp) "a rate is not displayed as `term / per` with a per-multiple of one omitted")
+          | _, _, _ => (impl, .skip "unparsed impl output")
+        | _ => (impl, .skip "unparsed impl output")
       | _, _ => bad
     | _, _, _, _, _, _ => bad
   | ["tconv", t, rows, i, a, j] =>
@@ -497,6 +528,75 @@ def step (line impl : String) : String × Verdict :=
             | _, _ => .skip "non-finite or unknown unit"
         (out, v)
     | _, _, _, _ => bad
+  | ["fmt", t, i, a, flags, w, p] =>
+    match W.find t, i.toNat?, C.parse a, parseSpec flags w p with
+    | some T, some i, some a, some sp =>
+      let sym : Text := (T.units[i]?.map (·.symbol)).getD []
+      match impl.splitOn " " with
+      | [o, r] =>
+        match textOfHex o, textOfHex r with
+        | some outT, some refT =>
+          if sym.isEmpty then
+            -- unit-less: the amount type's own Display with the full specification
+            ("h" ++ hexOfText refT ++ " " ++ r,
+              check (outT == refT) "unit-less value is not displayed as the bare amount under the same format specification")
+          else
+            let nonneg := R.ge a R.zero
+            let amtT : Text := match AT.absText with
+              | some f => f sp.prec a
+              | none => refT
+            let expected := Fmt.qtyFmt sp nonneg amtT sym
+            let vText := check (amtT == refT) "amount text differs from the amount type's own Display"
+            let vOut := check (outT == expected)
+              "display is not: sign, amount text, one space, symbol, padded as a whole to the width (in characters) with fill/alignment/zero flag"
+            let vPrec : Verdict := match sp.prec, R.val a with
+              | some pr, some x =>
+                match Fmt.parseDecText refT with
+                | some (tv, nf) =>
+                  (check (nf == pr) "amount does not have exactly the requested number of fractional digits").and
+                    (check (ratAbs (tv - ratAbs x) ≤ 1 / (2 * pow10 pr)) "amount is not correctly rounded to the requested precision")
+                | none => .skip "amount text not a plain decimal"
+              | _, _ => .ok
+            ("h" ++ hexOfText expected ++ " h" ++ hexOfText amtT, (vText.and vOut).and vPrec)
+        | _, _ => (impl, .skip "unparsed impl output")
+      | _ => (impl, if impl.startsWith "panic:" then .skip "panic" else .skip "unparsed impl output")
+    | _, _, _, _ => bad
+  | ["fmtu", t, i, flags, w, p] =>
+    match W.find t, i.toNat?, parseSpec flags w p with
+    | some _, some _, some _ =>
+      match impl.splitOn " " with
+      | [o, r] => (r ++ " " ++ r, check (o == r) "a unit is not displayed as its symbol under ordinary string formatting rules")
+      | _ => (impl, .skip "unparsed impl output")
+    | _, _, _ => bad
+  | ["fmtrt", t, i, a] =>
+    match W.find t, i.toNat?, C.parse a with
+    | some T, some i, some a =>
+      let sym : Text := (T.units[i]?.map (·.symbol)).getD []
+      match impl.splitOn " " with
+      | [o, back, ix] =>
+        let symUnique := (T.units.toList.filter (fun u => u.symbol == sym)).length == 1
+        let vAmt : Verdict := match C.parse back with
+          | some b => if (R.val a).isSome then check (R.same a b) "displayed amount does not parse back to exactly the stored amount"
+                      else .skip "non-finite"
+          | none => if (R.val a).isSome then .fail "displayed amount does not parse back" else .skip "non-finite"
+        let vUnit : Verdict :=
+          if sym.isEmpty then .ok
+          else if symUnique then check (ix == toString i) "displayed symbol does not resolve to the stored unit"
+          else .skip "symbol not unique"
+        let vShape : Verdict := match textOfHex o, AT.absText with
+          | some outT, some f =>
+            let nonneg := R.ge a R.zero
+            let exp := if sym.isEmpty then (if nonneg then [] else [45]) ++ f none a
+                       else Fmt.qtyFmt {} nonneg (f none a) sym
+            check (outT == exp) "display is not amount, one space, symbol"
+          | some outT, none =>
+            if sym.isEmpty then .ok
+            else check (outT.length ≥ sym.length + 2 && outT.drop (outT.length - sym.length - 1) == [32] ++ sym)
+              "display does not end in one space and the symbol"
+          | none, _ => .skip "unparsed"
+        (impl, (vAmt.and vUnit).and vShape)
+      | _ => (impl, .skip "unparsed impl output")
+    | _, _, _ => bad
   | ["si", "iter"] =>
     let row (i : Text) : String :=
       s!"{Text.toString i}:h{hexOfText ((SIPrefix.name i).getD [])}:h{hexOfText ((SIPrefix.abbr i).getD [])}:{(SIPrefix.exp i).getD 999}"
@@ -700,7 +800,7 @@ def step (line impl : String) : String × Verdict :=
 
 end run
 
-def runWith {A} (R : Arith A) (C : Codec A) (M : ErrModel) (isF64 : Bool) (args : List String) : IO UInt32 := do
+def runWith {A} (R : Arith A) (C : Codec A) (M : ErrModel) (AT : AmtText A) (isF64 : Bool) (args : List String) : IO UInt32 := do
   let W := buildWorld R isF64
   match args with
   | ["dump"] =>
@@ -719,7 +819,7 @@ def runWith {A} (R : Arith A) (C : Codec A) (M : ErrModel) (isF64 : Bool) (args 
     let mut i := 0
     for l in ls do
       let io := im.getD i "-"
-      let (m, v) := step R C M W l io
+      let (m, v) := step R C M W AT l io
       out.putStrLn (m ++ "\t" ++ v.toString)
       i := i + 1
     return 0
@@ -729,8 +829,8 @@ def runWith {A} (R : Arith A) (C : Codec A) (M : ErrModel) (isF64 : Bool) (args 
 
 def main (args : List String) : IO UInt32 :=
   match args with
-  | "f64" :: rest => runWith F64.arith f64Codec ErrModel.f64 true rest
-  | "dec" :: rest => runWith Dec.arith decCodec ErrModel.dec false rest
+  | "f64" :: rest => runWith F64.arith f64Codec ErrModel.f64 ⟨none⟩ true rest
+  | "dec" :: rest => runWith Dec.arith decCodec ErrModel.dec ⟨some Fmt.decAbsText⟩ false rest
   | _ => do
     IO.eprintln "usage: driver <f64|dec> ..."
     return 2
